@@ -2,7 +2,7 @@
 import ast, math, os
 import numpy as np
 from vp.coqrun import fl, flist, clist, parse_zlist, parse_flist
-from vp import srcparams
+from vp import srcparams, link
 from vp.common import REPO
 import umap.distances as D
 
@@ -28,6 +28,17 @@ FUNCS = {
     "spherical_gaussian_energy_grad": (15, None), "diagonal_gaussian_energy_grad": (16, None),
     "gaussian_energy_grad": (17, None),
 }
+# translation tie (LINKING.md): functions whose current source is translated to Gallina (py2coq) and proved equal to the
+# model of M_grads.v (coq/link/L_grads.v, theorem src_<fn>_eq); accepted gaps with the reason
+NOT_TRANSLATED = {
+    "gaussian_energy_grad": "outside the translator's subset: the literal 1e-32 (10^32 is not exactly representable in binary64, the "
+                            "literal semantics m/10^k of PyPrim.nlit covers k <= 22) and the stores x[2] = np.abs(x[2]) ... into the "
+                            "argument arrays; tied by the per-run correspondence only",
+}
+LINKED = [fn for fn in (
+    "euclidean_grad", "standardised_euclidean_grad", "manhattan_grad", "chebyshev_grad", "minkowski_grad", "hyperboloid_grad",
+    "weighted_minkowski_grad", "mahalanobis_grad", "canberra_grad", "bray_curtis_grad", "haversine_grad", "cosine_grad",
+    "hellinger_grad", "symmetric_kl_grad", "correlation_grad", "spherical_gaussian_energy_grad", "diagonal_gaussian_energy_grad")]
 FIXED_DIM = {"haversine_grad": 2, "spherical_gaussian_energy_grad": 3, "diagonal_gaussian_energy_grad": 4, "gaussian_energy_grad": 5}
 # functions whose returned distance goes through float32 storage (mahalanobis' diff array): larger finite-difference step
 FD_STEP = {"mahalanobis_grad": 2.0 ** -6}
@@ -238,6 +249,10 @@ def case_term(case, d, g, defaults):
                                                   "[" + "; ".join(flist(r) for r in mrows) + "]", fl(d), flist(g[:n].tolist()))
 
 
+def field_name(code):
+    return "distance" if code == 1 else "gradient length" if code == 2 else "gradient[%d]" % (code - 10)
+
+
 def selftest(ctx, rng):
     xs = [rng.uniform(-8, 8) for _ in range(150)] + [rng.uniform(-200, 200) for _ in range(30)] + [0.0, math.pi / 2, -math.pi, 1e-9]
     us = [rng.uniform(-1, 1) for _ in range(150)] + [0.0, 0.5, -0.5, 1.0, -1.0, 0.999999, 1e-8]
@@ -264,6 +279,10 @@ def selftest(ctx, rng):
 
 def run(ctx):
     ctx.check_proofs(["prop/P_C14.v"])
+    # translation tie: Gallina regenerated from the current umap/distances.py; link theorems src_<fn>_eq (= M_grads model) re-checked
+    lres = link.check(ctx, "distances_grads", {fn: "src_%s_eq" % fn for fn in LINKED}, NOT_TRANSLATED)
+    src_ready = lres.ok and not any("E_grads" in e for e in lres.errors)
+    link_broken = any(b.startswith("link[") for b in ctx.broken)
     rng = ctx.rng
     npr = np.random.RandomState(rng.randrange(2 ** 31))
     selftest(ctx, rng)
@@ -345,7 +364,16 @@ def run(ctx):
     for s in range(0, len(terms), shard):
         text = hdr + ("Definition cases : list gcase := %s.\nEval vm_compute in map (verdict_C14 %s %s) cases.\n"
                       % (clist(terms[s:s + shard]), fl(RTOL), fl(ATOL)))
-        blocks = ctx.coq_eval("cases_C14_%d" % (s // shard), text, what="M_grads *_grad (binary64) vs named_distances_with_gradients")
+        if src_ready:
+            # the translated source itself, run in binary64 on the same cases (validates the translator)
+            text = text.replace("Import ListNotations.", "From UVS Require Import E_grads.\nImport ListNotations.", 1)
+            text += "Eval vm_compute in map (verdict_src_C14 %s %s) cases.\n" % (fl(RTOL), fl(ATOL))
+            if link_broken:
+                text += "Eval vm_compute in map (verdict_src_vs_model %s %s) cases.\n" % (fl(RTOL), fl(ATOL))
+            blocks = link.coq_eval(ctx, lres, "cases_C14_%d" % (s // shard), text,
+                                   what="M_grads *_grad and translated source (binary64) vs named_distances_with_gradients")
+        else:
+            blocks = ctx.coq_eval("cases_C14_%d" % (s // shard), text, what="M_grads *_grad (binary64) vs named_distances_with_gradients")
         if blocks is None:
             continue
         v = parse_zlist(blocks[0])
@@ -354,8 +382,27 @@ def run(ctx):
         for off, code in enumerate(v):
             ctx.traces += 1
             if code != -1:
-                field = "distance" if code == 1 else "gradient length" if code == 2 else "gradient[%d]" % (code - 10)
-                ctx.diff(cases[s + off], "%s: %s" % (cases[s + off]["function"], field))
+                ctx.diff(cases[s + off], "%s: %s" % (cases[s + off]["function"], field_name(code)))
+        if src_ready and len(blocks) > 1:
+            vs = parse_zlist(blocks[1])
+            if len(vs) != len(v):
+                ctx.broken.append("C14 translated-source verdict list length mismatch"); continue
+            for off, code in enumerate(vs):
+                if code == -2:
+                    continue
+                ctx.extra["translated_source_evaluations"] = ctx.extra.get("translated_source_evaluations", 0) + 1
+                if code != -1 and v[off] == -1:     # (a case the model already disagrees on is reported once, above)
+                    fn = cases[s + off]["function"]
+                    ctx.diff(cases[s + off], "%s: %s: TRANSLATED SOURCE src_%s (binary64) vs implementation" % (fn, field_name(code), fn))
+            if link_broken and len(blocks) > 2:
+                for off, code in enumerate(parse_zlist(blocks[2])[:len(v)]):
+                    if code in (-1, -2):
+                        continue
+                    fn = cases[s + off]["function"]
+                    key = "link_counterexample_" + fn
+                    if key not in ctx.extra:
+                        ctx.extra[key] = dict(cases[s + off], note="translated source and hand-written model differ on this input (%s)" % field_name(code))
+                        ctx.diff(cases[s + off], "%s: %s: translated source differs from the model %s of M_grads.v on this input" % (fn, field_name(code), fn))
     ctx.partial += PARTIAL
     return ctx.finish(RULE, assumptions=[
         "theorems are over R; float32 storage of some gradient arrays and of mahalanobis' diff array is observed, not modelled",
